@@ -64,7 +64,8 @@ struct Spec
 };
 struct Op
 {
-  char kind; // 'a' assume, 'p' pop, 'n' next, 'r' propagate, 'k' check, 'c' new_clause(+propagate), 's' simplify_db
+  char kind; // 'a' assume, 'p' pop, 'n' next, 'r' propagate, 'k' check, 'c' new_clause(+propagate), 's' simplify_db,
+             // 'v' create (wherever the history stands) a variable from the value literals of variable args[0], as var_item::get does
   std::vector<int> args;
 };
 
@@ -146,6 +147,8 @@ static std::string op_txt(const Op &o)
     return "chk(" + slots_txt(o.args) + ")";
   case 'c':
     return "cl(" + slots_txt(o.args) + ")";
+  case 'v':
+    return o.args.empty() ? std::string("late") : "late(" + std::to_string(o.args[0]) + ")";
   default:
     return "simp";
   }
@@ -277,6 +280,11 @@ static void parse_case(const std::string &txt, Spec &s, std::vector<Op> &h)
         o.kind = 'c';
         o.args = parse_slots(tok.substr(3, tok.size() - 4));
       }
+      else if (tok.rfind("late(", 0) == 0)
+      {
+        o.kind = 'v';
+        o.args = {std::atoi(tok.c_str() + 5)};
+      }
       else
       {
         o.kind = 'a';
@@ -348,6 +356,7 @@ struct Net
   std::vector<var> lra_vars, idl_vars, rdl_vars, ov_vars;
   std::vector<std::unique_ptr<Val>> vals;
   std::vector<std::vector<int>> ov_slot; // [var][value] -> slot (0 if value not in domain)
+  std::vector<unsigned> ov_dom;          // [var] -> domain mask (variables created by a 'v' step included)
   std::vector<int> oe_slot;
   int la_slot0 = 0, ia_slot0 = 0, ra_slot0 = 0;
   bool ok = true; // construction + initial propagate succeeded
@@ -432,6 +441,7 @@ static void build(Net &n, const Spec &s, bool initial_propagate = true)
       else
         ov = o.lazy ? n.ov->new_var(items, false) : n.ov->new_var(items);
       n.ov_vars.push_back(ov);
+      n.ov_dom.push_back(o.dom);
       std::vector<int> sl(s.nval, 0);
       for (int v = 0; v < s.nval; ++v)
         if (o.dom & (1u << v))
@@ -771,14 +781,14 @@ static void oracle_ov(const Ctx &c, const Net &n, const std::vector<Op> &h, bool
   const Spec &s = *c.spec;
   if (!n.ov || !last_ok)
     return;
-  for (size_t v = 0; v < s.ov.size(); ++v)
+  for (size_t v = 0; v < n.ov_vars.size(); ++v)
   {
     auto dom = n.ov->value(n.ov_vars[v]);
     unsigned got = 0, exp = 0;
     for (auto *x : dom)
       got |= 1u << static_cast<Val *>(x)->id;
     for (int val = 0; val < s.nval; ++val)
-      if ((s.ov[v].dom & (1u << val)) && n.sat.value(n.slot[n.ov_slot[v][val]]) != False)
+      if ((n.ov_dom[v] & (1u << val)) && n.sat.value(n.slot[n.ov_slot[v][val]]) != False)
         exp |= 1u << val;
     if (got != exp)
     {
@@ -913,6 +923,23 @@ static bool apply_op(Net &n, const Op &o)
       ls.push_back(n.L(a));
     return n.sat.new_clause(ls) && n.sat.propagate();
   }
+  case 'v':
+  { // a variable over the same values, controlled by the value literals of variable args[0]; no clause is created, so
+    // the call is legal below root level
+    size_t par = (size_t)o.args[0];
+    std::vector<lit> dl;
+    std::vector<var_value *> dv;
+    for (size_t val = 0; val < n.vals.size(); ++val)
+      if (n.ov_dom[par] & (1u << val))
+      {
+        dl.push_back(n.ov->allows(n.ov_vars[par], *n.vals[val]));
+        dv.push_back(n.vals[val].get());
+      }
+    n.ov_vars.push_back(n.ov->new_var(dl, dv));
+    n.ov_dom.push_back(n.ov_dom[par]);
+    n.ov_slot.push_back(n.ov_slot[par]);
+    return true;
+  }
   default:
     return n.sat.simplify_db();
   }
@@ -1004,6 +1031,11 @@ static void enabled_ops(const Spec &s, const Net &n, const std::string &alphabet
     case 's':
       if (root)
         out.push_back(Op{'s', {}});
+      break;
+    case 'v': // once per history, from every variable of the network
+      if (n.ov && n.ov_vars.size() == s.ov.size())
+        for (size_t v = 0; v < s.ov.size(); ++v)
+          out.push_back(Op{'v', {(int)v}});
       break;
     }
 }
@@ -1905,6 +1937,21 @@ static void families(const std::string &prop, const std::string &tier)
             s.depth = th ? 4 : 3;
             g_specs.push_back(s);
           }
+    // variables created in the middle of a history (seed C14-4): ONE variable of EVERY domain, plain or lazy, and a step
+    // 'late(v)' that creates a second variable from its value literals wherever the history stands - below a decision
+    // that excludes a value, after a pop, at root; the reported domain of both must follow the literals ever after
+    for (unsigned d0 = 1; d0 <= 7u; ++d0)
+      for (int lz = 0; lz < 2; ++lz)
+      {
+        Spec s;
+        s.nval = 3;
+        OVar o{d0};
+        o.lazy = lz != 0;
+        s.ov = {o};
+        s.alphabet = "apnv";
+        s.depth = th ? 5 : 4;
+        g_specs.push_back(s);
+      }
     // lazy variables (enforce_exct_one = false, as the planner creates enum variables): EVERY pair of domains, with and
     // without an equality request; the reported domain must be exactly the values whose literal is not false, whatever
     // combination of value literals the history makes true
